@@ -1006,10 +1006,16 @@ func (r *rwRT) ruleOptOrder() {
 			// the optimisation passes run over every loaded file each time (they take no file): whether a file is
 			// written must be decided before any of them has run, otherwise a pass that removes the file's last
 			// use of seq (a forwarding closure over a generator reduced to the generator) makes the file vanish
-			if at, ok := asked[f]; ok {
+			if _, ok := asked[f]; ok {
+				// (every question about the file, not only the first: an answer obtained before the passes and
+				// then asked for again after them is the late one)
 				early := true
-				for _, s := range seq[:at] {
+				passed := false
+				for _, s := range seq {
 					if isPass(s) && (s.file == "" || s.file == f) {
+						passed = true
+					}
+					if s.what == "uses?" && s.file == f && passed {
 						early = false
 					}
 				}
